@@ -580,17 +580,44 @@ func renderConfmap(variant string, v any, si *shapeInfo) []out {
 		in = map[string]any{"key": v, "ptr": &v, "list": []any{v, []any{v}}, "nested": map[string]any{"n": v, "deeper": map[string]any{"d": []any{v}}}}
 	}
 	conf := confmap.New()
-	err := conf.Marshal(in)
+	var err error
+	if si.marshaler {
+		// A custom marshaller builds a Go map of DIFFERENT values; the encoder walks
+		// it in Go's random order and stops at the first entry that fails, so when
+		// two entries fail differently (one with an error, another with a panic of
+		// the yaml package about a generated struct it rejects) the reported
+		// failure is a matter of map order: the text is searched for sentinels,
+		// only the fact of a failure is compared.
+		func() {
+			defer func() {
+				if r := recover(); r != nil {
+					err = fmt.Errorf("panic: %v", r)
+					conf = confmap.New()
+				}
+			}()
+			err = conf.Marshal(in)
+		}()
+		o := []out{{"err", "<nil>"}}
+		if err != nil {
+			o = []out{{"scan:err-full", err.Error()}, {"err", "failed"}}
+		}
+		return append(o, confOuts(conf)...)
+	}
+	err = conf.Marshal(in)
 	o := []out{{"err", reGenKey.ReplaceAllString(errText(err), `"k#"`)}}
-	if (variant == "marshal-map" || si.marshaler) && err != nil {
+	if variant == "marshal-map" && err != nil {
 		// every entry of the top-level map holds the value, so every entry fails
 		// alike and which one is reported depends on Go's map iteration order:
 		// compare the innermost cause only, search the whole text
-		// (the same holds for custom marshallers that place a value under several
-		// keys of the section they build)
 		full := o[0].text
 		o = []out{{"scan:err-full", full}, {"err", full[strings.LastIndex(full, ": ")+1:]}}
 	}
+	return append(o, confOuts(conf)...)
+}
+
+// confOuts: the renderings and by-value readings of a Conf.
+func confOuts(conf *confmap.Conf) []out {
+	var o []out
 	m := conf.ToStringMap()
 	// koanf deep-copies the map: pointers kept below arrays (which the encoder
 	// does not descend into) are fresh allocations in every ToStringMap call
